@@ -450,7 +450,7 @@ pub fn expected_constraints(gp: &GenProblem) -> Vec<Constraint> {
 pub fn mutate(rng: &mut Rng, gp: &GenProblem) -> (String, &'static str) {
     let base = text_of(gp, rng);
     let lines: Vec<&str> = base.split('\n').collect();
-    match rng.below(15) {
+    match rng.below(16) {
         0 => {
             // delete a line
             let mut l = lines.clone();
@@ -618,6 +618,37 @@ pub fn mutate(rng: &mut Rng, gp: &GenProblem) -> (String, &'static str) {
                 format!("tangent({p}, {p}, {cand})")
             } else { l };
             (base.replacen("# constraints\n", &format!("# constraints\n{l}\n"), 1), "undeclared-reference")
+        }
+        15 => {
+            // a non-ASCII character (unit sign, currency, accent, emoji) a few BYTES into or right
+            // after a number token, or a keyword: every parser that peeks at the input by byte offsets
+            // (`&i[..5]`) instead of by characters panics exactly when a multi-byte character straddles
+            // its offset, and only there - a uniformly placed character almost never lands on it
+            let bytes = base.as_bytes();
+            let mut starts: Vec<usize> = Vec::new();
+            for k in 0..bytes.len() {
+                let prev_alnum = k > 0 && (bytes[k - 1].is_ascii_alphanumeric() || bytes[k - 1] == b'_' || bytes[k - 1] == b'.');
+                let tokenish = bytes[k].is_ascii_digit() || bytes[k] == b'-' || (k + 4 < bytes.len() && &bytes[k..k + 4] == b"sqrt");
+                if tokenish && !prev_alnum {
+                    starts.push(k);
+                }
+            }
+            // number slots of the instructions that take a number expression come first half of the time
+            let in_calls: Vec<usize> = starts.iter().copied().filter(|k| base[..*k].rfind('\n').map(|l| base[l..*k].contains('(')).unwrap_or(false)).collect();
+            let pool = if !in_calls.is_empty() && rng.chance(1, 2) { &in_calls } else { &starts };
+            if pool.is_empty() {
+                return (base, "none");
+            }
+            let st = *rng.pick(pool);
+            let line_end = base[st..].find('\n').map(|e| st + e).unwrap_or(base.len());
+            let mut at = (st + rng.below(8)).min(line_end);
+            while !base.is_char_boundary(at) {
+                at -= 1;
+            }
+            let c = *rng.pick(&['°', 'µ', '€', 'é', '²', '×', '\u{1F600}', '\u{0301}', '′', '½']);
+            let mut t = base.clone();
+            t.insert(at, c);
+            (t, "non-ascii-in-number")
         }
         12 => {
             let n = rng.range(0, 60);
